@@ -199,3 +199,15 @@ func MustJSON(v any) string {
 	b, _ := json.Marshal(v)
 	return string(b)
 }
+
+// Widen spreads small random parts (RIDs) over the whole uint64 range, order preserved, as the proxy's random IDs
+// are spread: code that compares IDs must do real three-way comparisons (differences wrap around).
+func Widen(r uint64) uint64 {
+	switch {
+	case r >= 1 && r <= 6:
+		return [...]uint64{0, 0x1000000000000001, 0x5000000000000002, 0x9000000000000003, 0xE000000000000004, 0xF000000000000005, 0xFF00000000000006}[r]
+	case r >= 7 && r < 128:
+		return 0xFF80000000000000 | r<<48
+	}
+	return r
+}
